@@ -8,6 +8,7 @@ import (
 	"os"
 	"os/exec"
 	"path/filepath"
+	"runtime/pprof"
 	"sort"
 	"strconv"
 	"strings"
@@ -362,7 +363,7 @@ func genCases(c *hx.Ctx, b baseImage) []string {
 	c.StatN("cases-enumerated/"+b.name, nStatic+len(traced))
 	// quick: all declared-field cases plus a seed-rotated slice of the traced ones; thorough: everything
 	if !c.Thorough() {
-		budget := 2500
+		budget := 700
 		if len(traced) > budget {
 			stride := len(traced)/budget + 1
 			off := int(c.Seed) % stride
@@ -501,7 +502,11 @@ func fatalSite(trace string) string {
 // siteOf extracts the call-site part of a panic detail ("msg @ site").
 func siteOf(detail string) string {
 	if i := strings.LastIndex(detail, " @ "); i >= 0 {
-		return strings.TrimSpace(detail[i+3:])
+		site := strings.TrimSpace(detail[i+3:])
+		if j := strings.Index(site, " "); j > 0 {
+			site = site[:j]
+		}
+		return site
 	}
 	if i := strings.Index(detail, " :: "); i >= 0 {
 		return strings.TrimSpace(detail[:i])
@@ -519,6 +524,26 @@ func Run(c *hx.Ctx) {
 		if only := c.Args["base"]; only != "" && only != b.name {
 			continue
 		}
+		if one := c.Args["patch"]; one != "" {
+			// replay of a single patch in-process: vh-damage base=<name> patch=<off>:<hex>[,<off>:<hex>]
+			// a hang dumps all goroutine stacks after 5 s
+			go func() {
+				time.Sleep(5 * time.Second)
+				_ = pprof.Lookup("goroutine").WriteTo(os.Stderr, 2)
+				os.Exit(3)
+			}()
+			tmp := filepath.Join(c.Scratch, "one.txt")
+			_ = os.WriteFile(tmp, []byte(one+"\treplay\n"), 0o644)
+			cs, _ := readCases(tmp)
+			oc, det := runCase(b.kind, b.img, cs[0].patch)
+			c.Note("replay %s patch=%s -> %s %s", b.name, one, oc, det)
+			if oc == "data" || oc == "error" {
+				c.OK("replay/" + b.name)
+			} else {
+				c.Fail("replay/"+b.name, oc+"@"+siteOf(det)+msgClass(det), oc+": "+det, b.name+" patch="+one)
+			}
+			continue
+		}
 		cases := genCases(c, b)
 		// the intact image must read as data: otherwise the enumeration means nothing
 		oc, det := runCase(b.kind, b.img, nil)
@@ -528,6 +553,16 @@ func Run(c *hx.Ctx) {
 		}
 		c.OK("intact/" + b.name)
 		res := runChildren(c, b, cases)
+		// a deadline miss on a busy machine is not yet a hang: re-run each such case alone, generously
+		var tmo []int
+		for i, r := range res {
+			if r.outcome == "timeout" {
+				tmo = append(tmo, i)
+			}
+		}
+		if len(tmo) > 0 {
+			confirmTimeouts(c, b, cases, res, tmo)
+		}
 		bad := map[string][]int{}
 		for i, r := range res {
 			id := fmt.Sprintf("%s/%d", b.name, i)
@@ -546,8 +581,13 @@ func Run(c *hx.Ctx) {
 			default:
 				c.Stat("outcome=" + r.outcome + "/" + b.name)
 				tag := r.outcome + "@" + siteOf(r.detail) + msgClass(r.detail)
-				if r.outcome == "timeout" {
+				switch r.outcome {
+				case "timeout":
 					tag = "timeout@" + b.kind
+				case "oom", "died", "fatal":
+					// found by the heap watchdog or a runtime fatal error: the allocating site is not
+					// known reliably, so the finding is identified by filesystem kind only
+					tag = "oom@" + b.kind
 				}
 				bad[tag] = append(bad[tag], i)
 				if len(bad[tag]) <= 3 {
@@ -592,4 +632,45 @@ func msgClass(detail string) string {
 		return "#stack"
 	}
 	return ""
+}
+
+// confirmTimeouts re-runs timed-out cases one per child with a 20 s deadline, 6 at a time.
+func confirmTimeouts(c *hx.Ctx, b baseImage, cases []string, res []result, idx []int) {
+	if len(idx) > 60 {
+		// a systematic hang: confirm a sample, keep the rest as reported
+		idx = idx[:60]
+	}
+	dir := filepath.Join(c.Scratch, b.name)
+	basefile := filepath.Join(dir, "base.img")
+	self, _ := os.Executable()
+	capMiB := 512 + 8*(len(b.img)>>20)
+	var wg sync.WaitGroup
+	sem := make(chan struct{}, 6)
+	for _, i := range idx {
+		wg.Add(1)
+		sem <- struct{}{}
+		go func(i int) {
+			defer wg.Done()
+			defer func() { <-sem }()
+			cf := filepath.Join(dir, fmt.Sprintf("confirm-%d.txt", i))
+			_ = os.WriteFile(cf, []byte(cases[i]+"\n"), 0o644)
+			cmd := exec.Command(self, "--child", b.kind, basefile, cf, "0", "20", strconv.Itoa(capMiB))
+			cmd.Env = append(os.Environ(), "GOTRACEBACK=single", "GOMAXPROCS=2")
+			out, _ := cmd.Output()
+			for _, l := range strings.Split(string(out), "\n") {
+				f := strings.SplitN(l, " ", 4)
+				if len(f) >= 3 && f[0] == "k" && f[1] == "0" {
+					det := ""
+					if len(f) > 3 {
+						det = f[3]
+					}
+					if f[2] != "timeout" {
+						c.Stat("timeout-not-confirmed/" + b.name)
+					}
+					res[i] = result{i, f[2], det}
+				}
+			}
+		}(i)
+	}
+	wg.Wait()
 }
